@@ -73,6 +73,6 @@ theorem who_queries_the_terminal :
 
 /-- `Handoff.next` was written against exactly this text of `Keys.GetCursorPos`, `Keys.readInputFiltered`
 (keys_unix.go) and `WatchResize` (display_unix.go) -/
-theorem handoff_text_is_the_modelled_one : RLV.Gen.KeyStack.handoffHash = 11159385200639907410 := by decide
+theorem handoff_text_is_the_modelled_one : RLV.Gen.KeyStack.handoffHash = 15899814264632820770 := by decide
 
 end RLV.Props.C20
